@@ -55,3 +55,19 @@ Theorem C13_merge_algorithm_refines_spec :
   MergeRefine.oget ThesMergeRefine.pair (Spec.mget k (SpecMerge.merge_thes cms th)).
 Proof. exact ThesMergeRefine.C13_merge_algorithm_refines_spec. Qed.
 Print Assumptions C13_merge_algorithm_refines_spec.
+
+Require ZV.ThesOrder.
+
+(* the canonical (synonym, document) list of a term - what the specification holds and what the frozen
+   reader's syn_pairs computes from the 64-bit codes - depends only on the SET of pairs: not on the
+   order in which a builder or a merge hands out internal synonym ids, not on the order of the codes
+   in the bitmap, not on repetitions *)
+Theorem C13_pairs_depend_only_on_their_set : forall l1 l2,
+  (forall t, List.In t l1 <-> List.In t l2) -> ThesOrder.canon l1 = ThesOrder.canon l2.
+Proof. exact ThesOrder.canon_order_free. Qed.
+Print Assumptions C13_pairs_depend_only_on_their_set.
+
+Theorem C13_insertion_order_free : forall l,
+  List.fold_left (fun a x => Spec.pins x a) l nil = ThesOrder.canon l.
+Proof. exact ThesOrder.insertion_order_free. Qed.
+Print Assumptions C13_insertion_order_free.
